@@ -40,7 +40,7 @@ func main() {
 		"Plus the ORDER BY + LIMIT family (runs of fully equal rows, LIMIT 0 .. rows+1, top-level and in a subquery), each case also through " +
 		"-o batch_table, -o csv and -o stream_native. Never generated: LIMIT without ORDER BY over grouping output (hash order)."
 	n := f.Cases(240, 2400)
-	cases, err := relq.Generate(rng, n, relq.Profile{GroupBias: 2, MaxDepth: 2, AllowErrors: true, AliasShapes: true, AllowTripleMap: true, TripleClass: "c01-triple-name", Floats: true}, bin, home, work)
+	cases, err := relq.Generate(rng, n, relq.Profile{GroupBias: 2, MaxDepth: 2, AllowErrors: true, AliasShapes: true, AllowTripleMap: true, TripleClass: "c01-triple-name", KeyClass: "c01-key-name", Floats: true}, bin, home, work)
 	if err != nil {
 		fmt.Fprintln(os.Stderr, err)
 		os.Exit(2)
